@@ -9,22 +9,27 @@
 (*   wipeKeeps `--wipe` leaves cmd_line.txt where it is / copies it to a    *)
 (*             directory outside the build directory, deletes, moves back   *)
 (*   rollback  a failing run restores the core data it found                *)
+(*   backup    coredata.dat.prev is a copy / coredata.dat is renamed to it  *)
+(*   usesM/E   the directory holds values set by a machine file / taken    *)
+(*             from the environment of the first run                        *)
 (*   chunks    every file is written with 1..MaxChunks write() calls        *)
 (* on every directory history.  TLC runs every script, crashes it after     *)
 (* every prefix and recovers.                                               *)
 (*                                                                          *)
 (* Theorems checked (cfg BuildDirCrash_MC.cfg):  every *safe* design -       *)
-(* core data and cmd_line.txt atomic, wipe keeps the command line inside    *)
-(* the directory, rollback - satisfies Recoverable and ValuesOldOrNew for   *)
-(* every order, chunking and history; the protocol laws hold exactly for    *)
-(* the designs that claim them.  The cfg BuildDirCrash_MC_AsBuilt.cfg       *)
-(* restricts the family to the protocol the real commands were seen to use  *)
-(* (cmd_line.txt in place, wipe backup outside) and is *expected* to        *)
-(* violate NoBrick: that is the defect the recorded scripts exhibit.        *)
+(* core data and cmd_line.txt atomic, backup by copy, wipe keeps the        *)
+(* command line inside the directory (and, when values came from machine    *)
+(* files, a first run that reads them back), rollback - satisfies           *)
+(* Recoverable and ValuesOldOrNew for every order, chunking and history;    *)
+(* the protocol laws hold for the designs that claim them.  The cfg         *)
+(* BuildDirCrash_MC_Legacy.cfg restricts the family to the protocol the     *)
+(* real commands used before fixes a762557 / 3af8f2a (cmd_line.txt in       *)
+(* place, wipe backup outside) and is *expected* to violate NoBrick and     *)
+(* NoLostValues (non-vacuity of the model).                                 *)
 (***************************************************************************)
 EXTENDS BuildDirCrash, TLC
 
-CONSTANTS MaxChunks, Family    \* Family: "all" | "asbuilt"
+CONSTANTS MaxChunks, Family    \* Family: "all" | "legacy"
 
 Install   == "meson-private/install.dat"
 IntroOpts == "meson-info/intro-buildoptions.json"
@@ -41,17 +46,26 @@ Kinds     == {"setup", "reconfigure", "configure", "wipe", "setup-fail", "reconf
 Designs ==
     { d \in [kind : Kinds, hist : {"fresh", "partial", "configured", "configured-prev"},
              coreP : Protocols, cmdlP : Protocols, ninjaP : Protocols, sync : BOOLEAN,
-             order : Orders, wipeKeeps : BOOLEAN, rollback : BOOLEAN, ninja : BOOLEAN, chunks : 1..MaxChunks] :
+             order : Orders, wipeKeeps : BOOLEAN, rollback : BOOLEAN, ninja : BOOLEAN, chunks : 1..MaxChunks,
+             backup : {"copy", "rename"}, usesM : BOOLEAN, usesE : BOOLEAN] :
         /\ d.kind \in {"setup", "setup-fail"} <=> d.hist \in {"fresh", "partial"}
         /\ d.kind # "wipe" => d.wipeKeeps                         \* irrelevant dimensions are fixed
         /\ d.kind \notin {"setup-fail", "reconfigure-fail"} => d.rollback
         /\ ~d.ninja => d.ninjaP = "atomic"
+        /\ d.ninja => (d.order = "core-first" /\ ~d.usesE)       \* build.ninja plays no part in recovery
         /\ d.kind = "configure" => (~d.ninja /\ d.order # "core-last")
-        /\ Family = "asbuilt" => (/\ d.coreP = "atomic" /\ d.cmdlP = "inplace" /\ d.ninjaP = "atomic" /\ d.sync
-                                  /\ d.order = (IF d.kind = "configure" THEN "cmdline-first" ELSE "core-first")
-                                  /\ (d.kind = "wipe" => ~d.wipeKeeps) /\ d.rollback) }
+        /\ d.hist \in {"fresh", "partial"} => d.backup = "copy"   \* nothing to back up
+        \* values from the environment of the first run: a wipe is itself a new first run
+        /\ d.usesE => d.kind \in {"reconfigure", "configure", "reconfigure-fail"}
+        /\ Family = "legacy" => (/\ d.coreP = "atomic" /\ d.cmdlP = "inplace" /\ d.ninjaP = "atomic" /\ d.sync
+                                 /\ d.order = (IF d.kind = "configure" THEN "cmdline-first" ELSE "core-first")
+                                 /\ (d.kind = "wipe" => ~d.wipeKeeps) /\ d.rollback /\ d.backup = "copy") }
 
-SafeDesign(d) == d.coreP = "atomic" /\ d.cmdlP = "atomic" /\ d.wipeKeeps /\ d.rollback
+\* backup by rename leaves a window without coredata.dat; a wipe removes coredata.dat by design, so a
+\* directory whose values came from machine files survives a killed wipe only with a first run that
+\* reads them back from cmd_line.txt
+SafeDesign(d) == /\ d.coreP = "atomic" /\ d.cmdlP = "atomic" /\ d.wipeKeeps /\ d.rollback /\ d.backup = "copy"
+                 /\ (d.kind = "wipe" /\ d.usesM) => FirstRunReadsCmdline
 
 -----------------------------------------------------------------------------
 W(f, n) == [j \in 1..n |-> Op("write", f, "")]
@@ -65,8 +79,13 @@ TwoSessions(f, n) == <<Op("creat", f, ""), Op("write", f, ""), Op("close", f, ""
 WriteNinja(p, n) == IF p = "atomic" THEN TwoSessions(NinjaTmp, n) \o <<Op("rename", NinjaTmp, Ninja)>> ELSE TwoSessions(Ninja, n)
 CopyF(src, dst) == <<Op("read", src, ""), Op("creat", dst, ""), Op("copy", dst, src), Op("close", dst, ""), Op("close", src, "")>>
 
-SaveCore(d, hasCore) == (IF hasCore THEN CopyF(Core, CorePrev) ELSE <<>>)
-                        \o WriteP(d.coreP, Core, CoreTmp, d.chunks, d.sync)
+SaveCore(d, hasCore) ==
+    IF hasCore /\ d.backup = "rename"
+    THEN IF d.coreP = "atomic"
+         THEN <<Op("creat", CoreTmp, "")>> \o W(CoreTmp, d.chunks) \o (IF d.sync THEN <<Op("fsync", CoreTmp, "")>> ELSE <<>>)
+              \o <<Op("close", CoreTmp, ""), Op("rename", Core, CorePrev), Op("rename", CoreTmp, Core)>>
+         ELSE <<Op("rename", Core, CorePrev)>> \o InPlace(Core, d.chunks)
+    ELSE (IF hasCore THEN CopyF(Core, CorePrev) ELSE <<>>) \o WriteP(d.coreP, Core, CoreTmp, d.chunks, d.sync)
 Backend(d)  == InPlace(Install, 1)
                \o (IF d.ninja THEN WriteNinja(d.ninjaP, d.chunks) ELSE <<>>)
 SaveBuild(d) == InPlace(BuildDat, d.chunks)
@@ -119,7 +138,7 @@ PreOf(d) ==
 
 ScriptOf(d) ==
     [design |-> d, kind |-> d.kind, fresh |-> d.hist \in {"fresh", "partial"},
-     failed |-> d.kind \in {"setup-fail", "reconfigure-fail"}, pre |-> PreOf(d),
+     failed |-> d.kind \in {"setup-fail", "reconfigure-fail"}, usesM |-> d.usesM, usesE |-> d.usesE, pre |-> PreOf(d),
      ops |-> CASE d.kind = "setup"       -> (IF d.hist = "fresh" THEN Dirs ELSE <<Op("mkdir", Info, "")>>) \o Configure(d, FALSE)
                [] d.kind = "setup-fail"  -> (IF d.hist = "fresh" THEN Dirs ELSE <<Op("mkdir", Info, "")>>) \o FailingConfigure(d, FALSE)
                [] d.kind = "reconfigure" -> Configure(d, TRUE)
@@ -136,7 +155,7 @@ design == sc.design
 
 \* the property, for the safe designs
 SafeIsRecoverable    == (SafeDesign(design) /\ phase = "recovered") => out.ok
-SafeIsOldOrNew       == (SafeDesign(design) /\ phase = "recovered" /\ out.ok) => ValueAllowed(sc, out.ver)
+SafeIsOldOrNew       == (SafeDesign(design) /\ phase = "recovered" /\ out.ok) => ValueAllowed(sc, out)
 \* the protocol laws hold for the designs that claim them
 AtomicCoreNeverTorn  == design.coreP = "atomic" => CoreNeverTorn(fs)
 AtomicNinjaNeverTorn == design.ninjaP = "atomic" => NinjaNeverTorn(fs)
@@ -148,14 +167,14 @@ AtomicCmdlNeverTorn  == design.cmdlP = "atomic" => ~Torn(fs[Cmdl])
 VerdictAgrees        ==
     phase = "recovered" =>
         LET v == Verdict(sc, pc, fs)
-        IN /\ (v = "ok") => (out.ok /\ ValueAllowed(sc, out.ver))
+        IN /\ (v = "ok") => (out.ok /\ ValueAllowed(sc, out))
            /\ (v = "Recoverable") => ~out.ok
-           /\ (v = "ValuesOldOrNew") => (out.ok /\ ~ValueAllowed(sc, out.ver))
+           /\ (v = "ValuesOldOrNew") => (out.ok /\ ~ValueAllowed(sc, out))
            /\ (~out.ok) => v \in {"Recoverable", "CoreNeverTorn", "NinjaNeverTorn", "CoreDurable", "RolledBack"}
 
-\* expected to FAIL for the as-built family: some crash state bricks the directory / loses values
+\* expected to FAIL for the legacy family: some crash state bricks the directory / loses values
 NoBrick      == phase = "recovered" => out.ok
-NoLostValues == (phase = "recovered" /\ out.ok) => ValueAllowed(sc, out.ver)
+NoLostValues == (phase = "recovered" /\ out.ok) => ValueAllowed(sc, out)
 
 \* statistics for the harness
 Stats == TLCGet("stats").diameter >= 0 /\ PrintT(<<"designs", Cardinality(Designs), "safe", Cardinality({d \in Designs : SafeDesign(d)})>>)
